@@ -27,6 +27,12 @@ pub trait Codec {
         ensures r is Ok <==> Self::dec(data@) is Some, r matches Ok(p) ==> Self::dec(data@) == Some(p);
     fn encode_unsigned(n: u64) -> (r: VarBuf)
         ensures r@ == Self::enc(n);
+    /// size of the CANONICAL encoding of n (what the encoder writes) -- not necessarily the width of an
+    /// encoding found in untrusted data
+    fn unsigned_size(n: u64) -> (r: u64)
+        ensures r == Self::enc(n).len();
+    fn unsigned_len(data: &[u8]) -> (r: Option<usize>)
+        ensures r == (match Self::dec(data@) { Some((n, _)) => Some(n), None => None::<usize> });
 }
 /// std: str::from_utf8 is the validator `valid_utf8` of vstd; its result borrows exactly the input bytes
 pub assume_specification<'a>[ core::str::from_utf8 ](v: &'a [u8]) -> (r: Result<&'a str, core::str::Utf8Error>)
@@ -85,11 +91,11 @@ pub trait RleStr {
 
 impl RleBytes for Vec<u8> {
 //@ fn rust/hexane/src/lib.rs | impl RleValue for Vec<u8> | value_len
-//@   before /let \(hdr, len\) = C::read_unsigned\(data\)\?;/
+//@   before /if data\.len\(\) - hdr < len \{/
         proof { C::dec_bounds(data@); }
 //@ end
 //@ fn rust/hexane/src/lib.rs | impl RleValue for Vec<u8> | try_unpack
-//@   before /let \(hdr, len\) = C::try_read_unsigned\(data\)\?;/
+//@   before /let rest = &data\[hdr\.\.\];/
         proof { C::dec_bounds(data@); }
 //@   after /let rest = &data\[hdr\.\.\];/
         proof { assert(rest@ =~= data@.subrange(hdr as int, data.len() as int)); assert(rest.len() == data.len() - hdr); }
@@ -102,7 +108,7 @@ impl RleStr for String {
 //@ fn rust/hexane/src/lib.rs | impl RleValue for String | value_len
 //@ end
 //@ fn rust/hexane/src/lib.rs | impl RleValue for String | try_unpack
-//@   before /let \(hdr, len\) = C::try_read_unsigned\(data\)\?;/
+//@   before /let rest = &data\[hdr\.\.\];/
         proof { C::dec_bounds(data@); }
 //@   after /let rest = &data\[hdr\.\.\];/
         proof {
@@ -111,10 +117,8 @@ impl RleStr for String {
         }
 //@ end
 //@ fn rust/hexane/src/lib.rs | impl RleValue for String | unpack
-//@   before /let \(hdr, len\) = C::read_unsigned\(data\)\.unwrap\(\);/
-        proof { C::dec_bounds(data@); }
 //@   after /let len = len as usize;/
-        proof { assert(data.len() - hdr >= len); }
+        proof { C::dec_bounds(data@); assert(data.len() - hdr >= len); }
 //@ end
 }
 
